@@ -71,7 +71,7 @@ TABLE = {
             "runtime monitoring: reported cycles vs independent exhaustive cycle enumeration",
             "C05"),
     "C04": ("exploration",
-            "The real KernelDG.get_critical_path() result (marked lines and per-line CP latencies) is judged on the graph it was computed on by an own longest-path computation: reported total between the longest chain with and without the last instruction's independent load, never below any single instruction latency, marked lines pairwise linked, per-line values are the chain's edge weights; workload = C03's synthetic and curated kernels plus the shipped corpus on the models of its ISA.",
+            "The real KernelDG.get_critical_path() result (marked lines and per-line CP latencies) is judged on the graph it was computed on by an own longest-path computation: reported total between the longest chain with and without the last instruction's independent load, never below any single instruction latency, marked lines pairwise linked, per-line values are the chain's edge weights; workload = C03's synthetic and curated kernels plus the shipped corpus on the models of its ISA; every other synthetic model sets hidden_loads: true; the reference graph is the observed one completed with load stages the builder left out; a second graph over the second half of the same instruction forms is judged and the first graph is judged again afterwards.",
             "Trusted: vf/ref_graph.py; which instructions are linked is taken as observed (C03/C06 judge that), the weight of every edge is checked against the producer's latencies; the dict report is also asked for first on the fresh graph.",
             "runtime monitoring: result vs own longest-path DP over the observed DAG",
             "C04"),
